@@ -1,3 +1,5 @@
+import re
+
 from ckl.errors import CklSyntaxError
 from ckl.lexer import Lexer, SourcePos
 
@@ -1031,7 +1033,12 @@ def parse_primary_expr(lexer, unary_minus=False):
         )
         result = invoke(lexer, result)
     elif token.type == "pattern":
-        result = NodeLiteral(ValuePattern(token.value[2:-2]), token.pos)
+        try:
+            result = NodeLiteral(ValuePattern(token.value[2:-2]), token.pos)
+        except (re.error, OverflowError, RecursionError):
+            raise CklSyntaxError(
+                f"Invalid pattern {token.value}", token.pos
+            )
         result = invoke(lexer, result)
     else:
         if token.value == "fn" and token.type == "keyword":
